@@ -254,3 +254,25 @@ fn expected_sync_direction(self_node_id: &EndpointId, other_node_id: &EndpointId
         SyncDirection::Connect
     }
 }
+
+#[cfg(feature = "verif-hooks")]
+#[allow(missing_docs)]
+#[derive(Debug, Clone, PartialEq, Eq)]
+pub enum VerifPeerSnapshot {
+    Unknown,
+    Idle { resync: bool },
+    Running { origin: Origin, resync: bool },
+}
+
+#[cfg(feature = "verif-hooks")]
+#[allow(missing_docs)]
+impl NamespaceStates {
+    pub fn verif_snapshot(&self, namespace: &NamespaceId, node: &EndpointId) -> VerifPeerSnapshot {
+        let Some(ns) = self.0.get(namespace) else { return VerifPeerSnapshot::Unknown };
+        let Some(p) = ns.nodes.get(node) else { return VerifPeerSnapshot::Idle { resync: false } };
+        match &p.state {
+            SyncState::Idle => VerifPeerSnapshot::Idle { resync: p.resync_requested },
+            SyncState::Running { origin, .. } => VerifPeerSnapshot::Running { origin: origin.clone(), resync: p.resync_requested },
+        }
+    }
+}
